@@ -90,6 +90,7 @@ def run_case(case):
     waiting = False
     wait_since = 0
     frame_t0 = None               # start edge of the frame currently on the line (tracked by the harness)
+    frames_seen = 0
     prev_tx = 1
     while t < budget:
         offering = pos < len(data) and idle == 0
@@ -98,8 +99,11 @@ def run_case(case):
         cur_tx = tx.get()
         if frame_t0 is not None and 2 * (t - frame_t0) >= 19 * P:
             frame_t0 = None                      # past the stop-bit sampling point
-        if frame_t0 is None and prev_tx == 1 and cur_tx == 0:
+        if frame_t0 is None and prev_tx == 1 and cur_tx == 0 and len(accepted) > frames_seen:
+            # a frame can only start for a byte the serializer has accepted (the line wire powers up low before the
+            # serializer drives it idle-high: that is not a start bit)
             frame_t0 = t
+            frames_seen += 1
             pulses = 0
         prev_tx = cur_tx
         if rx_sample.get() == 1:
